@@ -161,9 +161,13 @@ func wpDoc(c Case) wpmodel.Doc {
 }
 
 func htmlOf(c Case) string {
+	return "<!DOCTYPE html>\n<html><head><title>Title of the document</title></head><body>\n" + htmlBody(c.Blocks) + "</body></html>\n"
+}
+
+// htmlBody writes blocks as flow content that is well-formed both as HTML and as XHTML.
+func htmlBody(blocks []Blk) string {
 	var b strings.Builder
-	b.WriteString("<!DOCTYPE html>\n<html><head><title>Title of the document</title></head><body>\n")
-	esc := func(s string) string { return strings.ReplaceAll(html.EscapeString(s), "\n", "<br>") }
+	esc := func(s string) string { return strings.ReplaceAll(html.EscapeString(s), "\n", "<br/>") }
 	open := []bool{} // stack of open lists (ordered?)
 	closeTo := func(depth int) {
 		for len(open) > depth {
@@ -175,7 +179,7 @@ func htmlOf(c Case) string {
 			open = open[:len(open)-1]
 		}
 	}
-	for _, blk := range c.Blocks {
+	for _, blk := range blocks {
 		if blk.Kind != "item" {
 			closeTo(0)
 		}
@@ -230,7 +234,6 @@ func htmlOf(c Case) string {
 		}
 	}
 	closeTo(0)
-	b.WriteString("</body></html>\n")
 	return b.String()
 }
 
@@ -344,26 +347,36 @@ func render(c Case) (string, error) {
 		return write("book.xlsx", data, err)
 	case "epub":
 		b := epubw.Book{Version: "3.0", OPFPath: "OEBPS/content.opf", Title: "Title of the document", Creator: "A", Language: "en", Identifier: "urn:uuid:1"}
-		add := func() { b.Items = append(b.Items, epubw.Item{ID: fmt.Sprintf("ch%d", len(b.Items)), Path: fmt.Sprintf("ch%d.xhtml", len(b.Items))}) }
-		for _, blk := range c.Blocks {
-			switch blk.Kind {
-			case "heading":
-				add()
-				b.Items[len(b.Items)-1].Chapter.Heading = blk.Text
-			case "para":
-				if len(b.Items) == 0 {
-					add()
-				}
-				ch := &b.Items[len(b.Items)-1].Chapter
-				ch.Paras = append(ch.Paras, blk.Text)
+		add := func() {
+			b.Items = append(b.Items, epubw.Item{ID: fmt.Sprintf("ch%d", len(b.Items)), Path: fmt.Sprintf("ch%d.xhtml", len(b.Items))})
+		}
+		var pending []Blk
+		flush := func() {
+			if len(pending) > 0 {
+				b.Items[len(b.Items)-1].Chapter.Body += htmlBody(pending)
+				pending = nil
 			}
 		}
+		for _, blk := range c.Blocks {
+			if blk.Kind == "heading" {
+				flush()
+				add()
+				b.Items[len(b.Items)-1].Chapter.Heading = blk.Text
+				b.Items[len(b.Items)-1].Chapter.HeadingLevel = blk.Level
+				continue
+			}
+			if len(b.Items) == 0 {
+				add()
+			}
+			pending = append(pending, blk)
+		}
+		flush()
 		if len(b.Items) == 0 {
 			add()
 			b.Items[0].Chapter.Paras = []string{"filler"}
 		}
 		for i := range b.Items {
-			if b.Items[i].Chapter.Heading == "" && len(b.Items[i].Chapter.Paras) == 0 {
+			if b.Items[i].Chapter.Heading == "" && len(b.Items[i].Chapter.Paras) == 0 && b.Items[i].Chapter.Body == "" {
 				b.Items[i].Chapter.Paras = []string{"filler"}
 			}
 			b.Spine = append(b.Spine, epubw.SpineRef{Item: i})
@@ -616,18 +629,12 @@ func genCase(t *rapid.T) Case {
 		if c.Target == "modeltable" || c.Target == "xlsx" {
 			kind = "table"
 		}
-		if (c.Target == "pptx" || c.Target == "epub") && (kind == "item" || kind == "table") && c.Target == "epub" {
-			kind = "para"
-		}
 		if c.Target == "pptx" && kind == "item" {
 			kind = "para"
 		}
 		switch kind {
 		case "heading":
 			lvl := rapid.IntRange(1, 6).Draw(t, "level")
-			if c.Target == "epub" {
-				lvl = 1 // the chapter writer only has a chapter heading (h1)
-			}
 			c.Blocks = append(c.Blocks, Blk{Kind: "heading", Level: lvl, Text: tok() + " " + tok()})
 			depth = -1
 		case "para":
@@ -639,7 +646,7 @@ func genCase(t *rapid.T) Case {
 				d = rapid.IntRange(0, minInt(depth+1, 2)).Draw(t, "depth") // a list deepens one level at a time
 				// one definition per list in the word-processor formats: keep the kind within a run of items.
 				// HTML nests <ol> in <ul> items and vice versa: a nested list may have the other kind
-				if c.Target == "html" && d > depth && rapid.Bool().Draw(t, "otherKind") {
+				if (c.Target == "html" || c.Target == "epub") && d > depth && rapid.Bool().Draw(t, "otherKind") {
 					kindAt[d] = !kindAt[depth]
 				} else if d > depth {
 					kindAt[d] = kindAt[depth]
@@ -705,6 +712,7 @@ func meta(c Case) vr.Meta {
 	labels := []string{"target:" + c.Target}
 	nt := false
 	for _, b := range c.Blocks {
+		labels = append(labels, c.Target+":"+b.Kind)
 		switch b.Kind {
 		case "table":
 			for _, row := range b.Grid {
